@@ -73,6 +73,8 @@ func schemaBody(g *docGen) string {
 		`<img itemprop="image" src="/i/schema.png"><p itemprop="articleBody">` + g.words(40) + `</p></div>`
 }
 
+var siteStyles = []string{"color: #1b5e20", "color:#444", "font-size: 90%"}
+
 // richDoc renders template id as a full page.
 func richDoc(id int, g *docGen) string {
 	r := g.rng
@@ -81,10 +83,17 @@ func richDoc(id int, g *docGen) string {
 	g.tok = (id % 997) * 1000
 	var head, body strings.Builder
 	head.WriteString("<title>" + g.words(3) + " - " + g.words(2) + "</title>")
+	styled := false
 	story := func(n int) string {
 		var sb strings.Builder
 		for i := 0; i < n; i++ {
 			sb.WriteString(g.para(40 + r.Intn(20)))
+		}
+		if !styled {
+			// the same few inline styles all over a site, on boxes in one page and on phrases in the next
+			styled = true
+			sb.WriteString(`<div style="` + siteStyles[id%3] + `">` + g.para(30) + `</div><p>` + g.words(20) +
+				` <span style="` + siteStyles[(id+1)%3] + `">` + g.words(3) + `</span> ` + g.words(20) + `</p>`)
 		}
 		return sb.String()
 	}
@@ -126,6 +135,8 @@ func richDoc(id int, g *docGen) string {
 			`<img width="800" height="450" src="/i/blank.gif" data-original="/i/m8.png" data-srcset="/i/m8-2x.png 2x">` + story(1) + `</div>`)
 	case 7: // tables: nested, roles, editable
 		body.WriteString("<div>" + story(2) + `<table role="grid"><tr><td>` + g.words(2) + `</td><td>` + g.words(2) + `</td></tr><tr><td>` + g.words(2) + `</td><td><table><tr><td>` + g.words(2) + `</td></tr></table></td></tr></table>` +
+			// column groups plus a header row whose corner cell is empty
+			`<table><colgroup><col><col></colgroup><tr><th></th><th>` + g.words(1) + `</th></tr><tr><td>` + g.words(2) + `</td><td>` + g.words(2) + `</td></tr></table>` +
 			`<div contenteditable="true"><table><caption>` + g.words(2) + `</caption><tr><td>a</td><td>b</td></tr><tr><td>c</td><td>d</td></tr></table></div>` + story(1) + "</div>")
 	case 8: // path pager, off-site and odd links
 		body.WriteString("<div>" + story(3) + "</div>" + pagerHTML(g, "path", 4, 3) +
